@@ -199,45 +199,90 @@ def d2_shift_before_spatial(ctx):
     ctx.check(oka, fo, dd[0].stmt, dd[0].stmt, "angle is taken from the forward transform of the impulse", "angle is not that of the transformed impulse", key="dephas-angle")
 
 
+def _is_where_not3(v):
+    if v is None:
+        return False
+    cmp_ = find(v, ast.Compare)
+    return "where" in src(v) and bool(cmp_) and isinstance(cmp_[0].ops[0], ast.NotEq) and const_value(cmp_[0].comparators[0]) == (True, 3) \
+        and loc_name(cmp_[0].left) == "channel_labels" and isinstance(v, ast.Subscript) and const_value(v.slice) == (True, 0)
+
+
+def _is_all_rows(v):
+    return isinstance(v, ast.Call) and call_name(v) == "slice" and len(v.args) == 1 and const_value(v.args[0]) == (True, None)
+
+
+def _labels_given(gs):
+    """Do the guards say that channel labels are in use on this path?"""
+    for t, pol in gs:
+        s_ = src(t)
+        if "reject_channels" in s_ and pol:
+            return True
+        if "channel_labels" in s_:
+            neg = ("is None" in s_ and "is not None" not in s_) or ("is False" in s_ and "is not False" not in s_)
+            if pol != neg:
+                return True
+    return False
+
+
 def d3_outside_brain(ctx):
-    ctx.rule("D3", "labelled branch: spatial filter reads and writes exactly rows where(labels != 3)[0]")
+    ctx.rule("D3", "with labels: spatial filter reads and writes exactly rows where(labels != 3)[0]; bad channels repaired first, after the re-alignment")
     repo = ctx.repo
     n = 0
     for q in (MOD + ".destripe", MOD + ".decompress_destripe_cbin.my_function", "ibldsp.destripe_gpu.destripe_array"):
         fi = repo.fn(q)
         du = DefUse(fi.node)
         cfg = du.cfg
+        itp = [x for x in find(fi.node, ast.Call, nested=False) if call_name(x) == "interpolate_bad_channels"]
         for c in _spatial_calls(fi, du):
             st = cfg.node_for(c).stmt
             gs = []
             for t, pol in cfg.guards(cfg.node_for(c)):
                 gs += conjuncts(t, pol)
-            labelled = any(("channel_labels" in src(t) or "reject_channels" in src(t)) and pol for t, pol in gs)
-            if not labelled:
-                continue
-            n += 1
             arg = c.args[0] if c.args else None
-            ok = isinstance(st, ast.Assign) and isinstance(st.targets[0], ast.Subscript) and isinstance(arg, ast.Subscript)
-            if ok:
-                tgt = st.targets[0]
-                ok = norm(tgt) == norm(arg) and isinstance(tgt.slice, ast.Tuple)
-                sel = loc_name(tgt.slice.elts[0]) if ok else None
-                sd = du.strong_reaching(sel, st) if sel else []
-                okd = len(sd) == 1 and sd[0].value is not None
-                if okd:
-                    vv = sd[0].value
-                    cmp_ = find(vv, ast.Compare)
-                    okd = "where" in src(vv) and bool(cmp_) and isinstance(cmp_[0].ops[0], ast.NotEq) and const_value(cmp_[0].comparators[0]) == (True, 3) \
-                        and loc_name(cmp_[0].left) == "channel_labels" and isinstance(vv, ast.Subscript) and const_value(vv.slice) == (True, 0)
-                ok = ok and okd
+            indexed = isinstance(st, ast.Assign) and isinstance(st.targets[0], ast.Subscript) and isinstance(arg, ast.Subscript)
+            labelled_by_guard = _labels_given(gs)
+            if not indexed:
+                # whole-array form: only legal on a path where no labels are in use
+                if labelled_by_guard:
+                    ctx.violation(fi, st, st, "labels are in use but the spatial filter runs over all channels (outside-brain channels feed the filter)", key=f"{q}:inside")
+                    n += 1
+                continue
+            tgt = st.targets[0]
+            same = norm(tgt) == norm(arg) and isinstance(tgt.slice, ast.Tuple)
+            sel = loc_name(tgt.slice.elts[0]) if same else None
+            sd = du.strong_reaching(sel, st) if sel else []
+            kinds = []
+            for d in sd:
+                dg = []
+                for t, pol in cfg.guards(d.node):
+                    dg += conjuncts(t, pol)
+                if _is_where_not3(d.value):
+                    kinds.append("inside")
+                elif _is_all_rows(d.value) and not _labels_given(dg):
+                    kinds.append("all-unlabelled")
+                else:
+                    kinds.append("other:" + (src(d.value)[:40] if d.value is not None else "?"))
+            ok = same and bool(sd) and all(k in ("inside", "all-unlabelled") for k in kinds) and "inside" in kinds
+            n += 1
             ctx.check(ok, fi, st, st, "outside-brain channels (label 3) neither feed nor receive the spatial filter",
-                      f"`{src(st)[:90]}`: the spatial filter is not applied as x[where(labels != 3)[0], :] = f(x[where(labels != 3)[0], :])", key=f"{q}:inside")
-            # interpolation happens before and uses the header coordinates
-            itp = [x for x in find(fi.node, ast.Call, nested=False) if call_name(x) == "interpolate_bad_channels"]
-            ctx.check(bool(itp) and cfg.must_pass([cfg.node_for(itp[0])], cfg.node_for(c)), fi, c, c, "bad channels are repaired before the spatial filter",
+                      f"`{src(st)[:90]}`: the spatial filter is not applied as x[where(labels != 3)[0], :] = f(x[where(labels != 3)[0], :]) (selector definitions: {kinds})", key=f"{q}:inside")
+            ctx.check(bool(itp) and all(cfg.reachable(cfg.node_for(i), cfg.node_for(c)) for i in itp) and not any(cfg.reachable(cfg.node_for(c), cfg.node_for(i), avoid=[n_ for n_ in cfg.nodes if n_.kind in ("test",) and isinstance(n_.stmt, ast.While)]) for i in itp),
+                      fi, c, c, "bad channels are repaired before the spatial filter",
                       "bad channels are not repaired before the spatial filter (a dead/noisy channel contaminates its neighbours)", key=f"{q}:interp-first")
+        # the repair mixes neighbouring channels: it must see re-aligned traces
+        shifts = []
+        for c in find(fi.node, ast.Call, nested=False):
+            r = repo.resolve_call(fi, c)
+            if r in ("ibldsp.fourier.fshift", "ibldsp.fourier.channel_shift") or (isinstance(c.func, ast.Name) and c.func.id == "ifft_object"):
+                shifts.append(c)
+        loop_heads = [n_ for n_ in cfg.nodes if n_.kind == "test" and isinstance(n_.stmt, ast.While)]
+        for i in itp:
+            late = [s_ for s_ in shifts if cfg.reachable(cfg.node_for(i), cfg.node_for(s_), avoid=loop_heads)]
+            ctx.check(not late, fi, i, i, "bad-channel interpolation runs on re-aligned traces (after the sample_shift correction)",
+                      f"bad channels are interpolated from neighbours that still carry their own ADC delays (the re-alignment `{src(late[0])[:50] if late else ''}` comes later): "
+                      "the repaired channel keeps a stripe copy that the spatial filter cannot remove", key=f"{q}:interp-after-shift")
     if n < 3:
-        raise AnchorMissing(f"labelled spatial-filter branch found in {n} of 3 implementations")
+        raise AnchorMissing(f"indexed spatial-filter application found in {n} of 3 implementations")
 
 
 def d4_car_table(ctx):
@@ -312,8 +357,8 @@ def chain_target(t):
 
 
 def run(ctx):
-    d1_forwarding(ctx)
-    d2_shift_before_spatial(ctx)
-    d3_outside_brain(ctx)
-    d4_car_table(ctx)
-    d5_agc(ctx)
+    ctx.run(d1_forwarding)
+    ctx.run(d2_shift_before_spatial)
+    ctx.run(d3_outside_brain)
+    ctx.run(d4_car_table)
+    ctx.run(d5_agc)
